@@ -29,7 +29,7 @@ import lib_format as L
 
 PROP = "C18"
 CHUNK = 120           # branches per generated function
-N_MODULES = 8
+N_MODULES = 12
 
 
 def make_params(tier, seed):
@@ -288,7 +288,7 @@ def run(tier, seed):
         car = "join" if c["site"] == "join" else L.carrier(op)
         exprs[car].setdefault(L.expr_of(c), None)
     mods = gen_modules({car: list(es) for car, es in exprs.items()})
-    builds = core.build_many([core.BuildSpec(name, src) for name, src, _ in mods], jobs=min(core.NCPU, 8))
+    builds = core.build_many([core.BuildSpec(name, src) for name, src, _ in mods], jobs=min(core.NCPU, N_MODULES))
     where = {}
     failed = []
     for (name, src, index), b in zip(mods, builds):
@@ -317,7 +317,7 @@ def run(tier, seed):
     got = {}
     n_skipped = 0
     import concurrent.futures
-    with concurrent.futures.ThreadPoolExecutor(max_workers=min(core.NCPU, 8)) as ex:
+    with concurrent.futures.ThreadPoolExecutor(max_workers=min(core.NCPU, N_MODULES)) as ex:
         def one(item):
             name, lst = item
             return lst, run_table(lst[0][1], [x[2] for x in lst])
